@@ -421,8 +421,11 @@ Proof.
 Qed.
 
 Lemma hsh_batch_irrelevant bs r s ch :
-  unit_irrelevant r s (WBatch (map (fun x => (KHsh (numof bs x), VBlk x)) ch)) = true.
-Proof. simpl. induction ch; simpl; auto. Qed.
+  forallb (unit_irrelevant r s) (hsh_batch bs ch) = true.
+Proof.
+  unfold hsh_batch. destruct ch as [|x ch]; [reflexivity|]. cbn [forallb]. rewrite andb_true_r.
+  generalize (x :: ch). intros l. simpl. induction l; simpl; auto.
+Qed.
 
 Lemma concat_writes_hdr_blb bs ch b d :
   In b ch -> has (replay d (concat (map (fin_block_units bs) ch))) (KHdr b) = true /\
@@ -498,19 +501,13 @@ Proof.
   - (* finalise *)
     simpl in Hv. repeat (apply andb_true_iff in Hv; destruct Hv as [Hv ?]).
     apply N.ltb_lt in Hv.
-    match goal with H : sanc _ _ _ = true |- _ => rename H into Hs end.
     match goal with H : (s_round st <? r') = true |- _ => apply N.ltb_lt in H; rename H into Hrd end.
-    unfold sanc in Hs. apply andb_true_iff in Hs. destruct Hs as [_ Hne].
-    apply negb_true_iff, N.eqb_neq in Hne.
     set (bs := s_blocks st) in *. set (g := s_set st) in *.
     destruct (chain bs (s_fin st) b) as [ch|] eqn:Hc.
     2:{ exists r, s. simpl. split; [reflexivity|exact I]. }
-    pose proof (chain_has_end _ _ _ _ Hc Hne) as Hin.
-    set (A1 := concat (map (fin_block_units bs) ch) ++
-               [WBatch (map (fun x => (KHsh (numof bs x), VBlk x)) ch)]).
+    set (A1 := concat (map (fin_block_units bs) ch) ++ hsh_batch bs ch).
     set (uFh := WPut (KFh r' g) (VBlk b)). set (uHrs := WPut KHrs (VPair r' g)). set (uLfr := WPut KLfr (VNum r')).
-    assert (Hws : concat (map (fin_block_units bs) ch) ++
-                  [WBatch (map (fun x => (KHsh (numof bs x), VBlk x)) ch); uFh; uHrs; uLfr]
+    assert (Hws : concat (map (fin_block_units bs) ch) ++ hsh_batch bs ch ++ [uFh; uHrs; uLfr]
                   = (A1 ++ [uFh]) ++ [uHrs] ++ [uLfr]).
     { unfold A1. rewrite <- !app_assoc. reflexivity. }
     (* the pair (r', g) is new *)
@@ -524,7 +521,7 @@ Proof.
     { unfold le_rs in *. apply orb_true_iff in Hle. apply orb_true_iff. destruct Hle as [L|L]; [left; exact L|].
       apply andb_true_iff in L. destruct L as [L1 L2]. right. rewrite L1. apply N.leb_le in L2. simpl. apply N.leb_le. lia. }
     assert (HirrA : forallb (unit_irrelevant r s) (A1 ++ [uFh]) = true).
-    { unfold A1. rewrite !forallb_app, concat_irrelevant. cbn [forallb]. rewrite hsh_batch_irrelevant.
+    { unfold A1. rewrite !forallb_app, concat_irrelevant, hsh_batch_irrelevant. cbn [forallb].
       unfold uFh. cbn [unit_irrelevant reads_value]. rewrite Hnew. reflexivity. }
     pose proof (Inv_irrelevant _ _ _ _ _ _ I HirrA) as IA.
     pose proof (walk_irrelevant' _ _ _ _ _ _ I HirrA) as WA.
@@ -532,9 +529,14 @@ Proof.
     assert (HfhA : dA (KFh r' g) = Some (VBlk b)).
     { unfold dA. rewrite replay_app. simpl. apply dput_same. }
     assert (HhA : has dA (KHdr b) = true /\ has dA (KBlb b) = true).
-    { unfold dA, A1. rewrite !replay_app.
-      destruct (concat_writes_hdr_blb bs ch b d Hin) as [H1 H2].
-      split; apply grows_replay; apply grows_replay; assumption. }
+    { destruct (N.eq_dec (s_fin st) b) as [Heq|Hne].
+      - (* a later round finalises the finalised head again: header and body are there already *)
+        subst b. split; apply (grows_replay (A1 ++ [uFh]) d);
+          [apply (i_hdr _ _ _ _ _ I)|apply (i_blb _ _ _ _ _ I)].
+      - pose proof (chain_has_end _ _ _ _ Hc Hne) as Hin.
+        unfold dA, A1. rewrite !replay_app.
+        destruct (concat_writes_hdr_blb bs ch b d Hin) as [Hw1 Hw2].
+        split; apply grows_replay; apply grows_replay; assumption. }
     destruct HhA as [HhdrA HblbA].
     (* the write of hrs moves the head *)
     assert (IB : Inv bsF (mks bs b r' g (s_sched st) (s_forced st)) (dput dA KHrs (VPair r' g)) r' g).
